@@ -78,7 +78,6 @@ protected:
     double A_ub;
 
 	// member functions
-    bool InTriangleTest(double x, double y, int i) const override;
 	//void GetLineValues(CXYPlot &p, int PlotType, int npoints);
     void getElementD(int k);
 
